@@ -497,6 +497,7 @@ func (rg *Rig) bindRemote(s int) interceptor.RTPReader {
 		if call.op.Err {
 			call.innerErr = true
 			e.Fault("reader_err")
+			copy(b, call.raw) // the bytes are in the buffer, but the read failed: nobody may account the packet
 			return 0, a, errInjected
 		}
 		n := copy(b, call.raw)
@@ -760,14 +761,14 @@ func (rg *Rig) Run() {
 		for _, o := range rg.ops {
 			switch o.K {
 			case "ul":
-				if o.S < len(rg.cfg.Local) {
+				if o.S < len(rg.cfg.Local) && rg.unboundL[o.S] == 0 {
 					simrt.SleepUntil(us(o.AtUs))
 					e.Fault("unbind_at")
 					rg.chain.UnbindLocalStream(rg.linfo[o.S])
 					rg.mark(&rg.unboundL[o.S])
 				}
 			case "ur":
-				if o.S < len(rg.cfg.Remote) {
+				if o.S < len(rg.cfg.Remote) && rg.unboundR[o.S] == 0 {
 					simrt.SleepUntil(us(o.AtUs))
 					e.Fault("unbind_at")
 					rg.chain.UnbindRemoteStream(rg.rinfo[o.S])
